@@ -58,6 +58,59 @@ func content(flowID string, seq int) string {
 	return sb.String()
 }
 
+// bigContent is the deterministic content of a LARGE message: exactly n bytes (valid UTF-8). The head is the
+// ordinary random content of (flow id, seq) cut to 512 runes, the rest is ASCII filler in 1 KiB blocks, each block
+// starting with its own index and rotated by a seq-dependent offset (a lost, repeated or swapped block changes
+// the string). Cheap to build and to re-build on the receiving side (no per-byte random draw).
+func bigContent(flowID string, seq int, n int) string {
+	head := []rune(content(flowID, seq))
+	if len(head) > 512 {
+		head = head[:512]
+	}
+	b := make([]byte, 0, n+16)
+	b = append(b, string(head)...)
+	if len(b) > n { // n is far above the head in every use; keep the contract anyway (cut at a rune boundary)
+		b = b[:0]
+	}
+	const filler = "0123456789abcdefghijklmnopqrstuvwxyzABCDEFGHIJKLMNOPQRSTUVWXYZ_-"
+	rot := int((fnv(flowID) + uint64(seq)*7) % uint64(len(filler)))
+	for blk := 0; len(b) < n; blk++ {
+		b = append(b, fmt.Sprintf("<%07x>", blk)...)
+		for k := 0; k < 1015 && len(b) < n; k++ {
+			b = append(b, filler[(rot+blk+k)%len(filler)])
+		}
+	}
+	return string(b[:n])
+}
+
+// contentLen: payload carrier pk carries the content c times over (the nested-message carrier holds it twice);
+// a message that shall have an encoded payload of about `bytes` bytes gets a content of bytes/c bytes.
+func contentLen(pk, bytes int) int {
+	if pk == pkDelivery {
+		return bytes / 2
+	}
+	return bytes
+}
+
+// encodedLen: approximate encoded payload size of a message of carrier pk with a content of n bytes.
+func encodedLen(pk, n int) int {
+	if pk == pkDelivery {
+		return 2*n + 24
+	}
+	return n + 24
+}
+
+// leanContent: the content of message seq of a "lean" flow — 0..8 runes, so that tens of thousands of messages
+// make batches of a few dozen KiB (the long-queue scenarios: the link is limited by batches, not by bytes).
+func leanContent(flowID string, seq int) string {
+	r := vh.NewRNG(fnv(flowID)*0x9e3779b97f4a7c15 + uint64(seq)*0xbf58476d1ce4e5b9 + 29)
+	var sb strings.Builder
+	for i := r.Intn(9); i > 0; i-- {
+		sb.WriteRune(alphabet[r.Intn(len(alphabet))])
+	}
+	return sb.String()
+}
+
 func key(flowID string, seq int) string { return flowID + "#" + strconv.Itoa(seq) }
 
 func payload(pk int, k, c string) any {
